@@ -4,5 +4,6 @@ CONSTANTS
   ValidVals <- ValsDef
   TIds <- TIdsDef
   NoNest <- NestDef
+  HeapF <- HeapDef
 INVARIANT Report
 CHECK_DEADLOCK FALSE
